@@ -5,6 +5,16 @@ V = os.path.dirname(os.path.dirname(os.path.abspath(__file__)))
 BASE = "cd /repo && /venv/bin/python -m pytest -ra -q -p no:cacheprovider --timeout=900 --continue-on-collection-errors"
 
 CLAIMS = {
+ 'C02': dict(
+    text=("Decides structural necessary conditions of 'every view equals a key->bytes map' on all paths: (R1) call graph: every public key view of Container reaches object files and the index only through the single read funnel, and its negative answers (NotExistent, False, None) are derived from the funnel's MISSING outcome (skip_if_missing constants, guards, forwarding); "
+          "(R2) the funnel partitions the request by set provenance: found in index -> loose probe of (request - found) -> FileNotFoundError only routes a key to the retry set -> refreshed index query keyed by the retry set -> MISSING = retry set minus the rows yielded, plus the order typestate; "
+          "(R3) list_all_objects yields the key column of every index row and every loose file not listed from the index, count_objects = COUNT(*) / number of listed loose files / packs, _list_loose filters only by the name-validity predicates; "
+          "(R4) closed-world destruction table: every unlink/rename/replace/link/rmtree/DELETE/UPDATE/truncate site of the package has a tabled owner function and area, with key provenance for delete_objects, _clean_loose_objects' callers and clean_storage; "
+          "(R5) init_container writes the configuration/folders only after both refusal tests on every path (typestate over clear=True/False), rmtree only under clear, every cache attribute of __init__ reset and sessions closed; "
+          "(R6) repack stages every row of the pack with id/hashkey/size taken from the like-named columns of the same row; loosen_object goes through the public reader and the loose writer with a key comparison. "
+          "Does NOT decide equality of the views with the model after every history (values, histories): necessary conditions only."),
+    note="Closed-world tables: a new destructive site or a new public view fails the check until it is reviewed and tabled. Trusted: SQLite/POSIX semantics.",
+    technique="call-graph reachability + set-provenance/def-use checks on the read funnel + kind-resolved closed-world effect table + typestate on init_container", ref="5/C02"),
  'C03': dict(
     text=("Decides the structural clauses of index/pack agreement on every path, iteration and flag specialisation of the three pack writers (pack_all_loose, direct-to-pack, repack): "
           "(R1) the offset stored for an object is the append handle's tell() taken before the object's first write with no write/seek in between, the length is tell() - that offset taken after the last write (compressor flush included), the row is staged with both, the key comes from the writer that hashed the bytes, and pack_id is the id the handle was locked for; "
